@@ -358,11 +358,19 @@ func toTypeMeta(ext interface{}) (yaml.TypeMeta, bool) {
 		return yaml.TypeMeta{}, false
 	}
 
-	apiVersion := m[versionKey].(string)
+	// a malformed entry (version or kind missing or not a string) names no type
+	apiVersion, ok := m[versionKey].(string)
+	if !ok {
+		return yaml.TypeMeta{}, false
+	}
+	kind, ok := m[kindKey].(string)
+	if !ok {
+		return yaml.TypeMeta{}, false
+	}
 	if g, ok := m[groupKey].(string); ok && g != "" {
 		apiVersion = g + "/" + apiVersion
 	}
-	return yaml.TypeMeta{Kind: m[kindKey].(string), APIVersion: apiVersion}, true
+	return yaml.TypeMeta{Kind: kind, APIVersion: apiVersion}, true
 }
 
 // Resolve resolves the reference against the global schema
@@ -467,8 +475,8 @@ func (rs *ResourceSchema) Elements() *ResourceSchema {
 		// either not an array, or array has multiple types
 		return nil
 	}
-	if rs == nil || rs.Schema == nil || rs.Schema.Items == nil {
-		// no-scheme for the items
+	if rs == nil || rs.Schema == nil || rs.Schema.Items == nil || rs.Schema.Items.Schema == nil {
+		// no-scheme for the items (absent, or given in the tuple form)
 		return nil
 	}
 	s := *rs.Schema.Items.Schema
@@ -543,21 +551,35 @@ func (rs *ResourceSchema) PatchStrategyAndKeyList() (string, []string) {
 		// empty patch strategy
 		return "", []string{}
 	}
+	// an extension of the wrong type (possible in a user supplied schema) is
+	// treated like an absent one
+	strategy, ok := ps.(string)
+	if !ok {
+		return "", []string{}
+	}
 	mkList, found := rs.Schema.Extensions[kubernetesMergeKeyMapList]
 	if found {
 		// mkList is []interface, convert to []string
-		mkListStr := make([]string, len(mkList.([]interface{})))
-		for i, v := range mkList.([]interface{}) {
-			mkListStr[i] = v.(string)
+		if list, ok := mkList.([]interface{}); ok {
+			mkListStr := make([]string, 0, len(list))
+			for _, v := range list {
+				if k, ok := v.(string); ok {
+					mkListStr = append(mkListStr, k)
+				}
+			}
+			return strategy, mkListStr
 		}
-		return ps.(string), mkListStr
 	}
 	mk, found := rs.Schema.Extensions[kubernetesMergeKeyExtensionKey]
 	if !found {
 		// no mergeKey -- may be a primitive associative list (e.g. finalizers)
-		return ps.(string), []string{}
+		return strategy, []string{}
 	}
-	return ps.(string), []string{mk.(string)}
+	key, ok := mk.(string)
+	if !ok {
+		return strategy, []string{}
+	}
+	return strategy, []string{key}
 }
 
 // PatchStrategyAndKey returns the patch strategy and merge key extensions
@@ -567,13 +589,16 @@ func (rs *ResourceSchema) PatchStrategyAndKey() (string, string) {
 		// empty patch strategy
 		return "", ""
 	}
-
-	mk, found := rs.Schema.Extensions[kubernetesMergeKeyExtensionKey]
-	if !found {
-		// no mergeKey -- may be a primitive associative list (e.g. finalizers)
-		mk = ""
+	// an extension of the wrong type (possible in a user supplied schema) is
+	// treated like an absent one
+	strategy, ok := ps.(string)
+	if !ok {
+		return "", ""
 	}
-	return ps.(string), mk.(string)
+
+	// no mergeKey -- may be a primitive associative list (e.g. finalizers)
+	key, _ := rs.Schema.Extensions[kubernetesMergeKeyExtensionKey].(string)
+	return strategy, key
 }
 
 const (
